@@ -572,6 +572,105 @@ class ExprMixin:
         s2, d = self.new_dict(st, kd.k, kd.v)
         return k(s2, d)
 
+    # ---- dict comprehensions {K(a): V(a) for a in xs} ----------------------------------------------------------
+    _DICT_READERS = {"get", "keys", "values", "items"}
+
+    def _dictcomp_target(self, st, e):
+        """Name of the local the comprehension is assigned to, if that local is provably never mutated nor aliased in
+        the enclosing function (only `x in N`, `N[x]` loads and read-only methods): then 'every entry stems from an
+        element of xs' stays true for the whole function."""
+        fn = st.frame.func.node if st.frame is not None and st.frame.func is not None else None
+        if fn is None:
+            return None
+        name = None
+        for n in ast.walk(fn):
+            if isinstance(n, ast.Assign) and n.value is e and len(n.targets) == 1 and isinstance(n.targets[0], ast.Name):
+                name = n.targets[0].id
+            if isinstance(n, ast.AnnAssign) and n.value is e and isinstance(n.target, ast.Name):
+                name = n.target.id
+        if name is None:
+            return None
+        parents = {}
+        for n in ast.walk(fn):
+            for c in ast.iter_child_nodes(n):
+                parents[c] = n
+        binds = 0
+        for n in ast.walk(fn):
+            if not (isinstance(n, ast.Name) and n.id == name):
+                continue
+            par = parents.get(n)
+            if isinstance(n.ctx, ast.Store):
+                binds += 1
+                continue
+            if isinstance(n.ctx, ast.Del):
+                return None
+            if isinstance(par, ast.Subscript) and par.value is n and isinstance(par.ctx, ast.Load):
+                continue
+            if isinstance(par, ast.Compare) and n in par.comparators and \
+                    all(isinstance(o, (ast.In, ast.NotIn)) for o in par.ops):
+                continue
+            if isinstance(par, ast.Attribute) and par.value is n and par.attr in self._DICT_READERS \
+                    and isinstance(parents.get(par), ast.Call) and parents[par].func is par:
+                continue
+            return None
+        return name if binds == 1 else None
+
+    def pure_eval(self, st, expr, extra):
+        """Evaluate a side-effect-free expression with extra locals -> (value, facts added to the path condition);
+        anything that forks, raises or writes the heap is refused."""
+        s0 = st.copy()
+        s0.locals = dict(st.locals)
+        s0.locals.update(extra)
+        n0 = len(s0.pc)
+        got = []
+
+        def kk(s2, v):
+            got.append((s2, v))
+            return []
+        outs = self.ev(s0, expr, kk)
+        if outs or len(got) != 1:
+            raise Unsupported(f"comprehension element expression is not pure/total: {ast.unparse(expr)[:60]}")
+        s2, v = got[0]
+        if s2.alloc.s != st.alloc.s or any(s2.heap.get(k_) is not t for k_, t in st.heap.items()):
+            raise Unsupported("comprehension element expression writes the heap")
+        return v, list(s2.pc[n0:])
+
+    def ev_DictComp(self, st, e, k):
+        if len(e.generators) != 1 or e.generators[0].ifs or e.generators[0].is_async \
+                or not isinstance(e.generators[0].target, ast.Name):
+            raise Unsupported("dict comprehension form")
+        g = e.generators[0]
+
+        def got_iter(s2, it):
+            t, ek = self.as_seq(s2, self.unwrap(it))
+            x = self.elem_value(s2, self.arbitrary(elem_sort(ek), "dc_el"), ek)
+            kv, _ = self.pure_eval(s2, e.key, {g.target.id: x})
+            vv, _ = self.pure_eval(s2, e.value, {g.target.id: x})
+            s3, d = self.new_dict(s2, kv.kind, vv.kind)
+            # the content is characterised at look-ups (see dictcomp_facts); until then it is arbitrary
+            s3 = self._havoc_item(s3, ("dict", d, None, None))
+            if self._dictcomp_target(s2, e) is not None:
+                self.__dict__.setdefault("dictcomp_prov", {})[d.t.s] = (e, s2, t, ek)
+            return k(s3, d)
+        return self.ev(st, g.iter, got_iter)
+
+    def dictcomp_facts(self, st, d, key_t, val):
+        """d = {K(a): V(a) for a in xs}, d never mutated: an entry d[k] = v stems from some element a of xs with
+        K(a) = k and V(a) = v (K, V evaluated in the state the comprehension ran in)."""
+        prov = self.__dict__.get("dictcomp_prov", {}).get(d.t.s)
+        if prov is None:
+            return
+        e, s0, t, ek = prov
+        i = self.arbitrary(INT, "dc_ix")
+        a = self.elem_value(s0, seq_nth(t, i), ek)
+        tgt = e.generators[0].target.id
+        kv, f1 = self.pure_eval(s0, e.key, {tgt: a})
+        vv, f2 = self.pure_eval(s0, e.value, {tgt: a})
+        st.pc.append(And(Le(I(0), i), Lt(i, seq_len(t))))
+        st.pc.extend(f1 + f2)
+        st.pc.append(Eq(self.key_term(kv, d.k), key_t))
+        st.pc.append(self.values_equal(st, vv, val))
+
     def ev_JoinedStr(self, st, e, k):
         """f-strings: an injective tuple constructor of their pieces (T-fmt) when plain; an opaque
         string when format specs / conversions are used (the pieces are still evaluated)."""
@@ -660,7 +759,9 @@ class ExprMixin:
             if Not(has).s != "false":
                 outs += self.raise_(st.assume(Not(has)), "KeyError", where)
             s2 = st.assume(has)
-            outs += k(s2, self.dict_get(s2, base, kt))
+            got = self.dict_get(s2, base, kt)
+            self.dictcomp_facts(s2, base, kt, got)
+            outs += k(s2, got)
             return outs
         if isinstance(base, VRef) and isinstance(idx, VStr) and idx.lit is not None \
                 and self.field_decl(base.cls, idx.lit) is not None:
